@@ -10,3 +10,30 @@ def _vf(prop, tier):
 TABLE = {}
 for p in ("C01", "C02", "C03", "C04", "C05", "C06", "C07", "C11", "C12"):
     TABLE[p] = dict(run=_vf, replay=verifyfam.replay)
+
+
+# ------------------------------------------------------------------------------------------
+from . import smallfam  # noqa: E402
+
+
+def _key_generic(call, evs):
+    import json
+    return json.dumps(call.get("input"), sort_keys=True, separators=(",", ":")).replace(" ", "")
+
+
+C15_CFG = """SPECIFICATION Spec
+INVARIANTS TypeOK DataOnlyWhenDeviceGood ErrorOtherwise NoQuoteAfterFailedReport ProtocolOrder ProviderVerbatim FallbackTriesDevice ExportCase
+CHECK_DEADLOCK FALSE
+"""
+
+
+def _c15(prop, tier):
+    code, _, _ = smallfam.run(prop, tier, mc_module="GuestClient_MC", mc_cfg=C15_CFG, driver="client", trace_module="GuestClient_Trace",
+                              key_fn=_key_generic,
+                              required_actions=("Start", "SendReport", "SendQuote", "ReturnData", "ReturnErr", "AskSupported", "ProviderQuote", "Fallback"),
+                              assumptions=["the scripted client.Device / client.QuoteProvider stand for the kernel device and configfs-tsm",
+                                           "ioctl numbers are re-derived from the Linux _IOWR definition", "inotify reports the fall-back's open of the configured device path"])
+    return code
+
+
+TABLE["C15"] = dict(run=_c15, replay=lambda p, path: smallfam.replay(p, path, driver="client", trace_module="GuestClient_Trace"))
